@@ -1,5 +1,6 @@
 //! Shared helpers for the vkip check parts (C15, C16).
 
+pub mod entries;
 pub mod grammar;
 pub mod oracle;
 pub mod sup;
